@@ -41,10 +41,11 @@ var (
 	res  *vh.Result
 )
 
-const findingQuoting = "F08" // values/keys emitted unquoted although kvstring cannot read them back
-const findingLimit = "F08b"  // 255 byte limit applied to the raw (quoted) piece: a value whose quoted form is longer is printed as text the parser rejects
-const findingWrap = "F08b1"  // FIXED by 72eac47 (limit not re-tested after Unquote: wrapped length byte); tagged so that a recurrence names it
-const findingQKey = "F08c"   // field parser unquotes names, tag parser does not
+const findingQuoting = "F08"  // values/keys emitted unquoted although kvstring cannot read them back
+const findingLimit = "F08b"   // 255 byte limit applied to the raw (quoted) piece: a value whose quoted form is longer is printed as text the parser rejects
+const findingWrap = "F08b1"   // FIXED by 72eac47 (limit not re-tested after Unquote: wrapped length byte); tagged so that a recurrence names it
+const findingQKey = "F08c"    // field parser unquotes names, tag parser does not
+const findingLongTag = "F08d" // tags have no length limit, fields have: provenance of a tag piece > 255 bytes is silently empty
 
 // ---------------------------------------------------------------------------------------------
 // generators
@@ -838,6 +839,16 @@ func sectionFields(rng *vh.Rng) {
 			for _, p := range ps {
 				m[p[0]] = p[1]
 			}
+			if i%160 == 2 {
+				// a tag piece around the field limit (tags themselves have no limit)
+				n := rng.PickI([]int{250, 253, 254, 255, 256, 257, 300})
+				if rng.Bool() {
+					m["long"] = strings.Repeat("v", n)
+				} else {
+					m["q"] = strings.Repeat("=", n/2) // printed quoted: n/2+2 bytes
+					m[strings.Repeat("k", n)] = "1"
+				}
+			}
 			addProv(m)
 		default:
 			addText(genTagText(rng))
@@ -872,6 +883,8 @@ func sectionFields(rng *vh.Rng) {
 				What: "fieldsParseQuiet(tag line) (the provenance fields a pipe attaches) does not list the names and values of the tag set although tag.Parse reads the line back"}
 			if eq && kvField(m, "qkey") == "1" {
 				f.Finding = findingQKey
+			} else if eq && kvField(m, "long") == "1" {
+				f.Finding = findingLongTag
 			}
 			res.SpecFail(f)
 		}
